@@ -145,7 +145,7 @@ const NON_MOVES: [Action; 6] = [
 /// Roots of the exhaustive sequences: (label, FEN, prefix moves, alphabet moves, full
 /// non-move alphabet?).  Roots with a prefix use the reduced non-move alphabet
 /// {offer:w, accept, decline, resign:b} to keep the replayed prefixes affordable.
-const ROOTS: [(&str, &str, &[&str], &[&str], bool); 27] = [
+const ROOTS: [(&str, &str, &[&str], &[&str], bool); 43] = [
     ("start", gen::START_FEN, &[], &["e2e4", "e7e5", "Ng1f3"], true),
     ("mate_w", "6k1/5ppp/8/8/8/8/8/R3K3 w Q - 0 1", &[], &["Ra1a8", "Ke1e2", "O-O-O", "Ra1b2"], true),
     ("mate_b", "r3k3/8/8/8/8/8/5PPP/6K1 b q - 0 1", &[], &["Ra8a1", "Ke8e7", "O-O-O", "Kg1f1"], true),
@@ -239,6 +239,24 @@ const ROOTS: [(&str, &str, &[&str], &[&str], bool); 27] = [
     // castling that gives check / mate (flags of the recorded move)
     ("castle_check", "5k2/8/8/8/8/8/8/4K2R w K - 0 1", &[], &["O-O", "Rh1f1", "Ke1e2", "Kf8e8"], true),
     ("castle_mate", "2rkr3/2p1p3/8/8/8/8/8/R3K3 w Q - 0 1", &[], &["O-O-O", "Ra1d1", "Ke1e2", "Kd8d7"], true),
+    // (fourth wave, C11-d) the placement after a double pawn push recurs with the OTHER side to move and no en-passant right
+    // (one side loses a tempo by a queen triangle): different positions that differ in exactly two features
+    ("tempo_w_a", gen::START_FEN, &["e2e3", "e7e6", "a2a4", "Qd8e7", "Ng1f3", "Qe7f6", "Nf3g1"], &["Qf6d8", "Qf6e7"], false),
+    ("tempo_w_b", gen::START_FEN, &["e2e3", "e7e6", "b2b4", "Qd8e7", "Ng1f3", "Qe7f6", "Nf3g1"], &["Qf6d8", "Qf6e7"], false),
+    ("tempo_w_c", gen::START_FEN, &["e2e3", "e7e6", "c2c4", "Qd8e7", "Ng1f3", "Qe7f6", "Nf3g1"], &["Qf6d8", "Qf6e7"], false),
+    ("tempo_w_d", gen::START_FEN, &["e2e3", "e7e6", "d2d4", "Qd8e7", "Ng1f3", "Qe7f6", "Nf3g1"], &["Qf6d8", "Qf6e7"], false),
+    ("tempo_w_e", gen::START_FEN, &["d2d3", "e7e6", "e2e4", "Qd8e7", "Ng1f3", "Qe7f6", "Nf3g1"], &["Qf6d8", "Qf6e7"], false),
+    ("tempo_w_f", gen::START_FEN, &["e2e3", "e7e6", "f2f4", "Qd8e7", "Ng1f3", "Qe7f6", "Nf3g1"], &["Qf6d8", "Qf6e7"], false),
+    ("tempo_w_g", gen::START_FEN, &["e2e3", "e7e6", "g2g4", "Qd8e7", "Ng1f3", "Qe7f6", "Nf3g1"], &["Qf6d8", "Qf6e7"], false),
+    ("tempo_w_h", gen::START_FEN, &["e2e3", "e7e6", "h2h4", "Qd8e7", "Ng1f3", "Qe7f6", "Nf3g1"], &["Qf6d8", "Qf6e7"], false),
+    ("tempo_b_a", gen::START_FEN, &["e2e3", "e7e6", "Qd1e2", "a7a5", "Qe2f3", "Ng8f6", "Qf3d1", "Nf6g8"], &["Qd1e2", "Qd1f3"], false),
+    ("tempo_b_b", gen::START_FEN, &["e2e3", "e7e6", "Qd1e2", "b7b5", "Qe2f3", "Ng8f6", "Qf3d1", "Nf6g8"], &["Qd1e2", "Qd1f3"], false),
+    ("tempo_b_c", gen::START_FEN, &["e2e3", "e7e6", "Qd1e2", "c7c5", "Qe2f3", "Ng8f6", "Qf3d1", "Nf6g8"], &["Qd1e2", "Qd1f3"], false),
+    ("tempo_b_d", gen::START_FEN, &["e2e3", "e7e6", "Qd1e2", "d7d5", "Qe2f3", "Ng8f6", "Qf3d1", "Nf6g8"], &["Qd1e2", "Qd1f3"], false),
+    ("tempo_b_e", gen::START_FEN, &["e2e3", "d7d6", "Qd1e2", "e7e5", "Qe2f3", "Ng8f6", "Qf3d1", "Nf6g8"], &["Qd1e2", "Qd1f3"], false),
+    ("tempo_b_f", gen::START_FEN, &["e2e3", "e7e6", "Qd1e2", "f7f5", "Qe2f3", "Ng8f6", "Qf3d1", "Nf6g8"], &["Qd1e2", "Qd1f3"], false),
+    ("tempo_b_g", gen::START_FEN, &["e2e3", "e7e6", "Qd1e2", "g7g5", "Qe2f3", "Ng8f6", "Qf3d1", "Nf6g8"], &["Qd1e2", "Qd1f3"], false),
+    ("tempo_b_h", gen::START_FEN, &["e2e3", "e7e6", "Qd1e2", "h7h5", "Qe2f3", "Ng8f6", "Qf3d1", "Nf6g8"], &["Qd1e2", "Qd1f3"], false),
     (
         "shuffle_knights",
         gen::START_FEN,
@@ -416,12 +434,15 @@ pub fn pgn(tier: usize, seed: u64, out: &mut Out) {
     // scripted games first: shapes random play practically never reaches
     //  * three knights that can all reach one square (file+rank disambiguation `Ng4f6+`), game left open / resigned
     //  * a game that ends by itself through threefold repetition (declared draw + result token on import)
-    const SCRIPTS: [(&str, &[&str]); 3] = [
+    const SCRIPTS: [(&str, &[&str]); 5] = [
         ("three_knights", &["h2h4", "g7g5", "h4g5", "h7h6", "g5h6", "a7a6", "h6h7", "a6a5", "h7g8=N", "a5a4", "Nb1c3", "b7b6",
             "Nc3e4", "b6b5", "Ng1f3", "c7c6", "Nf3e5", "c6c5", "Ne5g4", "d7d6", "Ng4f6"]),
         ("castle_check", &["f2f4", "e7e5", "f4e5", "f7f6", "e5f6", "Ng8h6", "f6g7", "Ke8f7", "g7h8=Q", "Qd8e7", "Ng1h3", "d7d6", "e2e3",
             "Bc8g4", "Bf1c4", "Bg4e6", "O-O", "Kf7g6", "Bc4e6", "Qe7e6"]),
         ("repetition", &["Ng1f3", "Ng8f6", "Nf3g1", "Nf6g8", "Ng1f3", "Ng8f6", "Nf3g1", "Nf6g8"]),
+        // b-pawn capture where a bishop could capture on the same square: `bxc3` and `Bxc3` differ in case only
+        ("pawn_vs_bishop_w", &["d2d4", "Ng8f6", "Bc1d2", "Nf6e4", "Ng1f3", "Ne4c3", "b2c3", "d7d5"]),
+        ("pawn_vs_bishop_b", &["Ng1f3", "d7d6", "Nf3d4", "Bc8d7", "Nd4c6", "b7c6", "e2e4"]),
     ];
     for (name, script) in SCRIPTS.iter() {
         for (vname, acts) in endings.iter() {
